@@ -332,7 +332,10 @@ func dataRequest(source, key, sep string, parts []partMeta, datas [][]byte, rout
 // C14
 
 var hostile = []string{"../x", "../../canary.txt", "../../../canary.txt", "/etc/passwd.sts", "a/../../b", "..", "./../up", "a//b", "sub/../../../area/other/secret.txt",
-	"..\\..\\w", "%2e%2e/x", "%2e%2e%2fy", "ok/name.dat", "deep/er/name.dat", strings.Repeat("L", 300), "uni/ço de.dat", "a/./b"}
+	"..\\..\\w", "%2e%2e/x", "%2e%2e%2fy", "ok/name.dat", "deep/er/name.dat", strings.Repeat("L", 300), "uni/ço de.dat", "a/./b",
+	// (appended later, so that older replay files keep their meaning) names that stay inside but
+	// come down to the directory itself
+	"x/..", "a/b/../..", "./", "sub/.."}
 
 func propTraversal(t *vt.T) {
 	withSources := t.Bool("withSourceList")
@@ -451,6 +454,12 @@ func propTraversal(t *vt.T) {
 				for _, pre := range allowedPrefixes(source) {
 					if under(p, pre) || under(pre, p) {
 						ok = true
+					}
+					if p == pre && after[p] != "" && after[p] != "dir" {
+						// the source's own root has become a FILE: something was delivered onto the
+						// directory name itself
+						ok = false
+						break
 					}
 				}
 			} else if under(p, "area/recv/data/log/messages") {
